@@ -50,7 +50,8 @@ def comment_list(comment: None | str | list[str]):
     if isinstance(comment, str):
         comment = [comment]
 
-    return [f"-- {c}" for c in comment]
+    # every line of a multi line comment needs its own comment marker
+    return [f"-- {line}" for c in comment for line in (str(c).splitlines() or [""])]
 
 
 class Statement:
